@@ -363,7 +363,7 @@ func TestCheck(t *testing.T) {
 		return
 	}
 
-	n := r.N(3600, 80000)
+	n := r.N(3600, 160000)
 	for i := 0; i < n; i++ {
 		e.runCase(i, "")
 	}
